@@ -6,6 +6,8 @@ checks = {
  "C04": ("model_checking", "TLC proves greedy-draw lemmas on the exhaustive source family (both modes) and compares real per-account debit totals with the specification's draw on a corpus whose destination is one plain account.", "4, C04", "TLC trace validation of real runs against Sem.tla + design-level TLC model checking"),
  "C06": ("model_checking", "TLC proves the share lemmas (sum, floor/floor+1, leftmost +1s, remaining, rejected sums) for every portion vector over small denominators x totals against an independent statement; Apalache proves them for symbolic n in Nat per vector (beyond 2^64); real single-allotment sends (literal, percent, variable portions; both sides) are judged by TLC.", "4, C06", "TLC model checking + Apalache (unbounded n) + TLC trace validation of real runs"),
  "C07": ("model_checking", "Reconcile.tla (small-step machine of reconciler.go) is model-checked to refine the declarative pairing Sem!Pair incl. kept spanning several senders and termination; TLC prints every initial state (all short lists) and the real interpreter.Reconcile is run on each and judged by TLC; whole sends are judged on flow matrices.", "4, C07", "TLC refinement check + TLC-generated behaviours replayed into interpreter.Reconcile + TLC trace validation"),
+ "C08": ("model_checking", "TLC proves on program families that saved funds cannot be moved without an overdraft grant; for real runs, at every split right after a save, the whole execution is compared with the remaining statements run alone on the visible balance TLC prints from the specification state (save formula), guarded by a save-deleted control so that only save is judged.", "4, C08", "TLC-printed intermediate states + real-vs-real executions judged by TLC (SplitTrace.tla)"),
+ "C09": ("model_checking", "For every split point of generated multi-statement scripts TLC prints the specification state (starting balances updated by the logged postings and save reservations); prefix and suffix are executed alone and TLC checks whole = prefix ++ suffix on postings and key-wise metadata merge.", "4, C09", "TLC-printed intermediate states + real-vs-real executions judged by TLC (SplitTrace.tla)"),
  "C05": ("model_checking", "TLC proves clause-by-clause distribution lemmas on the exhaustive destination family and compares real per-account credit totals with the specification's distribution on a corpus drawn from @world.", "4, C05", "TLC trace validation of real runs against Sem.tla + design-level TLC model checking"),
 }
 m = {
